@@ -117,6 +117,12 @@ class StoreSim:
     def apath(self, f: MFile, aname: str) -> str:
         return self.path(aname, f.assoc_where.get(aname, ''))
 
+    def eff_cache(self, cache_mb: int, fieldsets, rows_specs) -> int:
+        """The simulator owns the cache knob but never sets it below one trajectory
+        (cachetools refuses such items by design; not part of any property)."""
+        need = max((G.est_nbytes(fieldsets, s['n']) for s in rows_specs), default=0)
+        return cache_mb if need <= cache_mb * 1024 * 1024 else 2048
+
     # --------------------------------------------------------------- failures
     def fail(self, code: str, detail: str = '', sess: MSession | None = None, **features):
         feats = dict(features)
@@ -326,6 +332,8 @@ class StoreSim:
                 return self._add_overflow(sess, traj, snap, spec)
         elif nbytes > sess.cache_mb * 1024 * 1024:
             return None  # a cache smaller than one trajectory is not exercised
+        if sess.kind == 'mem' and nbytes > sess.cache_mb * 1024 * 1024:
+            return None
         first = len(rows) == 0
         mode = sess.kind
         had_proto = len(getattr(sess.store, '_trajectories', ())) > 0
@@ -458,8 +466,8 @@ class StoreSim:
 
     def op_lookup(self, op):
         sess = self.sessions.get(op['sess'])
-        if sess is None:
-            return None
+        if sess is None or sess.kind == 'mem':
+            return None  # never-saved in-memory stores have no id index (not claimed)
         rows = self._rows(sess)
         specs = self._specs(sess)
         ident = None
@@ -520,7 +528,13 @@ class StoreSim:
             if sess.sid in self.pending_reject:
                 self.fail('reject.breaks_close', f'close after rejected add: {type(e).__name__}: {e}', sess,
                           **self.pending_reject[sess.sid])
-            self.fail('close.raised', f'{type(e).__name__}: {e}', sess)
+            if sess.kind == 'mem':
+                # observation only (DESIGN section 6): closing a never-saved in-memory store
+                # that holds identified trajectories raises KeyError('base'); no listed
+                # property speaks about closing in-memory stores.
+                self.probes['obs_mem_close_raised'] += 1
+            else:
+                self.fail('close.raised', f'{type(e).__name__}: {e}', sess)
         del self.sessions[sess.sid]
         if sess.file is not None:
             sess.file.open_by = None
@@ -561,6 +575,7 @@ class StoreSim:
         if any(f.assoc_where.get(a) for a in assoc_names):
             return None
         ctor = TrajectoryStore.append if mode == 'a' else TrajectoryStore.open
+        op['cache'] = self.eff_cache(op['cache'], self._visible_for(f, assoc_names), f.specs)
         try:
             store = ctor(base_file=self.fpath(f), cache_size_mb=op['cache'],
                          **self._open_kwargs(f, assoc_names))
@@ -593,6 +608,7 @@ class StoreSim:
             return None
         assoc_names = [a for a, _ in list(f.assoc) + list(f.extra_assoc) if not f.assoc_where.get(a)]
         info = f.__dict__.get('reject_info')
+        op['cache'] = self.eff_cache(op['cache'], self._visible_for(f, assoc_names), f.specs)
         try:
             store = TrajectoryStore.open(base_file=self.fpath(f), cache_size_mb=op['cache'],
                                          **self._open_kwargs(f, assoc_names))
@@ -917,6 +933,7 @@ class StoreSim:
         kw = {}
         if assoc_dirs:
             kw['associated_files'] = assoc_dirs
+        op['cache'] = self.eff_cache(op['cache'], vis, [s for f in parts for s in f.specs])
         try:
             store = TrajectoryStore.open(base_file=self.path(m.name), cache_size_mb=op['cache'], **kw)
         except Exception as e:  # noqa: BLE001
